@@ -92,7 +92,10 @@ Print Assumptions C05_count_after_batch.
 
 (** If the batch drains every one of its inputs (e.g. a single event type), COUNT
     is unchanged for every type, and exactness is preserved (so this holds for any
-    number of such batches). *)
+    number of such batches).  [Exact s] cannot be dropped: in
+    [C05_select_preserved_example] the second batch drains both of its inputs and
+    COUNT for type 0 goes from 5 back to 4, because segment 0 still held the rows
+    of type 0 retired by the first batch. *)
 Theorem C05_count_preserved_full_drain : forall k s b,
   WF s -> Exact s -> BatchPre k s b -> NoDup (b_uids b) ->
   (forall i, In i (b_inputs b) -> In i (drained (index s) b)) ->
